@@ -324,6 +324,7 @@ void runHandles(const Plan& p)
 	{
 		// warm-up: function-local statics of the library (e.g. the default element returned by
 		// Map::operator[] const) are constructed once per process and are not part of this run's accounting
+		sim::NoSched ns;
 		H tmp = K<H>::make(0);
 		H tmp2 = K<H>::clone(tmp);
 		K<H>::read(tmp2);
